@@ -267,9 +267,13 @@ class Out:
             self.lines.append(text)
             self.meta.append(m)
 
-    def add_file(self, path, kind):
-        """shim/spec/lemma file: `//# LABEL` tags a line; untagged lines inherit the last `//#region`."""
+    def add_file(self, path, kind, twin=None):
+        """shim/spec/lemma file: `//# LABEL` tags a line; untagged lines inherit the last `//#region`.
+        twin: list to extend - every `proof fn` with a requires clause gets `assert(false)` at body entry
+        (must be refuted: the hypotheses are not contradictory)."""
         region = None
+        cur_fn = None
+        has_req = False
         rel = os.path.relpath(path, VERIF)
         with open(path) as f:
             for ln, raw in enumerate(f, 1):
@@ -290,6 +294,21 @@ class Out:
                     meta["region_only"] = True
                 self.lines.append(text)
                 self.meta.append(meta)
+                if twin is not None:
+                    mfn = re.match(r"^pub (?:broadcast )?proof fn (\w+)", text)
+                    if mfn:
+                        cur_fn, has_req = mfn.group(1), False
+                    elif cur_fn and re.match(r"^\s+requires\b", text):
+                        has_req = True
+                    elif cur_fn and text.rstrip() == "{":
+                        if has_req:
+                            lab = f"VACUITY.lemma.{cur_fn}"
+                            self.lines.append("    assert(false);")
+                            self.meta.append({"kind": kind, "src": f"{rel}:{ln}", "label": lab})
+                            twin.append(lab)
+                        cur_fn = None
+                    elif cur_fn and text.startswith("{"):
+                        cur_fn = None
 
     def text(self):
         return "\n".join(self.lines) + "\n"
@@ -672,7 +691,7 @@ def assemble(unit, items=None, twin=False):
         if hdr:
             out.add("}", kind="impl")
     for lf in unit.get("lemmas", []):
-        out.add_file(os.path.join(VERIF, "lemmas", lf), "lemma")
+        out.add_file(os.path.join(VERIF, "lemmas", lf), "lemma", twin=twin_list)
     out.add("} // mod code", kind="prelude")
     out.add("} // verus!", kind="prelude")
     out.add("fn main() {}", kind="prelude")
